@@ -1,9 +1,11 @@
+pub mod crashsim;
+pub mod reposim;
 pub mod tablesim;
 
 use crate::core::runner::Engine;
 
 pub fn all() -> Vec<Box<dyn Engine>> {
-    vec![Box::new(tablesim::TableSim)]
+    vec![Box::new(tablesim::TableSim), Box::new(reposim::RepoSim)]
 }
 
 pub fn by_name(name: &str) -> Option<Box<dyn Engine>> {
